@@ -41,6 +41,9 @@ Cases ==
   \cup {[c |-> "Mixture", w |-> w] : w \in {<<1>>, <<1, 1>>, <<1, 3>>, <<2, 1, 1>>}}
   \cup {[c |-> "KDE", n |-> n, d |-> d] : n \in (IF Deep THEN {1, 2, 3, 5, 9} ELSE {1, 2, 5}), d \in 1..2}
   \cup {[c |-> "MoG", d |-> d, k |-> k, rows |-> r] : d \in 1..2, k \in 1..3, r \in 0..(IF Deep THEN 3 ELSE 2)}
+  \* three features, where the hidden degrees of a feed-forward network with random masks differ from layer to layer
+  \* (the density is a product of conditionals only if every layer respects them)
+  \cup {[c |-> "MoG3", k |-> k, arch |-> a, draw |-> w] : k \in 1..2, a \in {"residual", "feedforward", "feedforward_random"}, w \in 1..(IF Deep THEN 4 ELSE 2)}
   \cup {[c |-> "Box"], [c |-> "LotkaVolterra"]}
 
 FactsOf(x) ==
